@@ -7,7 +7,7 @@ use std::sync::{Arc, Mutex};
 
 use serde_json::{json, Value};
 
-use raindb::{Batch, WriteOptions, DB};
+use raindb::{Batch, ReadOptions, WriteOptions, DB};
 
 use crate::crashx::{read_contents, History};
 use crate::run::{run_once, Outcome};
@@ -63,7 +63,48 @@ fn check_reads(db: &DB, keys: &[Vec<u8>], cands: &BTreeSet<Model>, when: &str) -
             Err(_) => errs += 1,
         }
     }
-    let ok = cands.iter().any(|m| got.iter().all(|(k, v)| m.get(k) == v.as_ref()));
+    // one long-lived iterator, parked at the first entry, then positioned at every key; a seek
+    // that fails is retried once on the same iterator (the caller's natural reaction to a
+    // transient error). A position reached without an error must be the first entry not less
+    // than the target in the same candidate state that explains the gets.
+    let mut seeks: Vec<(Vec<u8>, Option<(Vec<u8>, Vec<u8>)>)> = vec![];
+    match db.new_iterator(ReadOptions::default()) {
+        Err(_) => errs += 1,
+        Ok(it) => {
+            let mut it: DbIter = Box::new(it);
+            if it.seek_to_first().is_err() || it.take_error().is_some() {
+                errs += 1;
+            }
+            for k in keys {
+                for _attempt in 0..2 {
+                    let r = it.seek(k);
+                    let e = it.take_error();
+                    if r.is_ok() && e.is_none() {
+                        seeks.push((k.clone(), if it.is_valid() { it.current().map(|(a, b)| (a.clone(), b.clone())) } else { None }));
+                        break;
+                    }
+                    errs += 1;
+                }
+            }
+        }
+    }
+    let explains_seeks = |m: &Model| seeks.iter().all(|(t, got)| m.range(t.clone()..).next().map(|(k, v)| (k.clone(), v.clone())) == *got);
+    let ok = cands.iter().any(|m| got.iter().all(|(k, v)| m.get(k) == v.as_ref()) && explains_seeks(m));
+    if !ok && cands.iter().any(|m| got.iter().all(|(k, v)| m.get(k) == v.as_ref())) {
+        return Err((
+            "C08.stale_or_lost_read".into(),
+            format!(
+                "{}: a long-lived iterator (a failed seek retried once) was positioned without an error at [{}] which no candidate state explains together with the gets (candidates: {})",
+                when,
+                seeks
+                    .iter()
+                    .map(|(t, g)| format!("seek({})->{}", esc(t), g.as_ref().map(|(k, v)| format!("{}={}", esc(k), show_val(v))).unwrap_or("end".into())))
+                    .collect::<Vec<_>>()
+                    .join(", "),
+                cands.iter().map(show_model).collect::<Vec<_>>().join(" | ")
+            ),
+        ));
+    }
     if !ok {
         return Err((
             "C08.stale_or_lost_read".into(),
